@@ -246,6 +246,8 @@ def run_inproc(spec):
     try:
         if spec["kind"] == "random":
             for i in range(spec["runs"]):
+                if res.enough():
+                    break
                 prog = gen_program(rng)
                 sseed = rng.getrandbits(32)
                 lab = chanlab.Lab(spec["transport"], sseed)
@@ -274,6 +276,8 @@ def run_inproc(spec):
             targets = [(ln, k) for ln in lines for k in spec["ks"]]
             targets = [t for i, t in enumerate(targets) if i % spec["parts"] == spec["part"]]
             for (fn, ln), k in targets:
+                if res.enough():
+                    break
                 prog = gen_program(rng, small=True)
                 sseed = rng.getrandbits(32)
                 lab = chanlab.Lab("pipe", sseed, p_yield=0.1, p_sleep=0.0)
